@@ -53,6 +53,8 @@ func runC01(p *core.Program, r *core.Report) {
 	c01R7(p, r)
 	// R8: "the declarations the generator rendered": each (package, generator) renders into its own context and file
 	chainRules(p, r, "R8", "C05", []string{"C05.R2", "C05.R3"}, "every generator of a package renders into a context and file of its own")
+	c01R9(p, r, w, parse[0], fileV)
+	c01R10(p, r, w)
 }
 
 var loneImport = regexp.MustCompile(`(^|\n)\s*import\s+[^(\s]`)
@@ -827,6 +829,65 @@ func c01R5(p *core.Program, r *core.Report, pl *pipeline) {
 		why += ": what the generator rendered in this run is dropped and the file on disk keeps the previous run's declarations"
 	}
 	r.Check(!missed, rule, f, "a non-empty file is always handed to the writer", disp.Pos(), "every path from the dispatch to the next generator passes the hand-over or the edge on which the file is empty", why)
+	// the emptiness test is made when nothing can render into the file any more: within the iteration no dispatch and no
+	// call of a deferred callback (a value taken from the context's callback list) follows it
+	isCallbackCall := func(n ast.Node) bool {
+		hit := false
+		ast.Inspect(n, func(m ast.Node) bool {
+			if _, ok := m.(*ast.FuncLit); ok {
+				return false
+			}
+			c, ok := m.(*ast.CallExpr)
+			if !ok {
+				return true
+			}
+			if c == disp {
+				hit = true
+			}
+			if v := core.VarOf(info, c.Fun); v != nil && !v.IsField() {
+				for _, d := range core.DefsOf(info, f.Body, v) {
+					if d.Rhs == nil {
+						continue
+					}
+					src, _ := core.Resolve(info, f.Body, d.Rhs)
+					if ix, isIx := ast.Unparen(src).(*ast.IndexExpr); isIx {
+						src = ix.X
+					}
+					if isRole(p, core.FieldOf(info, src), "ctx.callbacks") {
+						hit = true
+					}
+				}
+			}
+			return !hit
+		})
+		return hit
+	}
+	for _, br := range g.Branches() {
+		if !inLoop(br.Cond) || br.Tag != nil {
+			continue
+		}
+		tests := false
+		for k := 0; k < 2; k++ {
+			if knownEmpty(br.B, k) {
+				tests = true
+			}
+		}
+		if !tests {
+			continue
+		}
+		start := cfgx.Point{B: br.B, I: len(br.B.Nodes) - 1}
+		late, found := g.Reach(start, false, cfgx.Query{
+			Target: func(q cfgx.Point) bool { n := q.Node(); return n != nil && inLoop(n) && isCallbackCall(n) },
+			Cut: func(q cfgx.Point) bool {
+				return q.B.Stmt == ast.Stmt(loop) && (q.B.Kind == kindRangeLoop || q.B.Kind == kindRangeDone)
+			},
+		})
+		whyLate := ""
+		if found {
+			whyLate = "after the file was tested for emptiness the same iteration still runs `" + core.ExprStr(late.Node()) + "`, which can render into it: a generator that renders only from a deferred callback is taken for silent - its file is not written and its previous file is removed as stale"
+		}
+		r.Check(!found, rule, f, "the file is tested for emptiness after the last rendering of the iteration", br.Cond.Pos(), "no dispatch and no deferred callback runs between the test and the next generator", whyLate)
+	}
 	for _, ws := range sites {
 		bad := ""
 		for _, fct := range g.FactsAt(g.PointOf(ws.Call)) {
